@@ -2596,7 +2596,7 @@ def run(ctx: Ctx) -> None:
     )
     for name in IDENT_NAMES:
         other_items.append(("identname", dict(name=name)))
-    maxlen = ctx.pick(3, 4)
+    maxlen = 3 if ctx.quick else 4  # not ctx.pick: an escalated quick run must not enumerate length 4
     for n in range(1, maxlen + 1):
         if n == 1:
             other_items.append(("alphabet", dict(first=list(ALPHABET), length=1)))
@@ -2647,21 +2647,27 @@ def _coverage_floors(ctx: Ctx, ntrees: int, nstrings: int) -> None:
     from harness.common import Infra
 
     d = ctx.dist
+
+    def base(quick, thorough):
+        """the floor of the plain tier: an escalated quick run (anchored code edited, budgets x3) must not raise the floors,
+        only part of the case families scale with the budget"""
+        return quick if ctx.quick else thorough
+
     skipped_infra = sum(v for k, v in d.items() if k.startswith("skipped=") and k.split("=")[1] in ("CaseTimeout", "MemoryError", "RecursionError"))
     skipped_infra += sum(v for k, v in d.items() if k.startswith("skipped_in_compare="))
     floors = [
         ("tree cases evaluated", sum(v for k, v in d.items() if k.startswith("build=")), int(0.97 * ntrees)),
         ("string cases evaluated", d.get("outcome=ok", 0) + d.get("outcome=raised", 0) + d.get("outcome=arith", 0), int(0.95 * nstrings)),
-        ("simplify() clauses checked", d.get("simplify=done", 0), ctx.pick(150, 800)),
-        ("Shape clauses checked", d.get("shape=done", 0), ctx.pick(450, 2500)),
-        ("serialize/deserialize clauses checked", d.get("serde=done", 0), ctx.pick(450, 2500)),
-        ("integer-fragment comparisons", d.get("int_fragment=checked", 0), ctx.pick(800, 20000)),
-        ("standard-meaning oracle applied", d.get("meaning=checked", 0), ctx.pick(600, 10000)),
+        ("simplify() clauses checked", d.get("simplify=done", 0), base(150, 800)),
+        ("Shape clauses checked", d.get("shape=done", 0), base(450, 2500)),
+        ("serialize/deserialize clauses checked", d.get("serde=done", 0), base(450, 2500)),
+        ("integer-fragment comparisons", d.get("int_fragment=checked", 0), base(800, 20000)),
+        ("standard-meaning oracle applied", d.get("meaning=checked", 0), base(600, 10000)),
         ("model overloads vs Lean parse of the real text", d.get("overload_tie=compared", 0), int(0.8 * ntrees)),
         ("model of SymPy's printer token-exact", d.get("sympy_pp=token-exact", 0), int(0.7 * ntrees)),
-        ("Shape model compared", d.get("shape_model=compared", 0), ctx.pick(400, 2300)),
+        ("Shape model compared", d.get("shape_model=compared", 0), base(400, 2300)),
         ("operator glue matrix rows", sum(v for k, v in d.items() if k.startswith("glue_outcome=")), 800),
-        ("alphabet strings", sum(v for k, v in d.items() if k.startswith("alphabet_outcome=")), ctx.pick(14000, 300000)),
+        ("alphabet strings", sum(v for k, v in d.items() if k.startswith("alphabet_outcome=")), base(14000, 300000)),
     ]
     problems = [f"{name}: {got} < {need}" for name, got, need in floors if got < need]
     if skipped_infra > max(5, (ntrees + nstrings) // 200):
